@@ -100,7 +100,7 @@ macro_rules! from_rng_default {
         }
     };
 }
-from_rng_default!(rc_from_rng_default_8, rc_try_from_rng_default_8, rand_xoshiro::Xoroshiro64Star, 8, |s| s);
-from_rng_default!(rc_from_rng_default_16, rc_try_from_rng_default_16, rand_xoshiro::Xoroshiro128Plus, 16, |s| s);
-from_rng_default!(rc_from_rng_default_32, rc_try_from_rng_default_32, rand_xoshiro::Xoshiro256PlusPlus, 32, |s| s);
+from_rng_default!(rc_from_rng_default_8, rc_try_from_rng_default_8, rand_xoshiro::Xoroshiro64Star, 8, crate::id);
+from_rng_default!(rc_from_rng_default_16, rc_try_from_rng_default_16, rand_xoshiro::Xoroshiro128Plus, 16, crate::id);
+from_rng_default!(rc_from_rng_default_32, rc_try_from_rng_default_32, rand_xoshiro::Xoshiro256PlusPlus, 32, crate::id);
 from_rng_default!(rc_from_rng_default_64, rc_try_from_rng_default_64, rand_xoshiro::Xoshiro512Plus, 64, rand_xoshiro::Seed512);
